@@ -227,10 +227,30 @@ std::optional<T> string_to_number(const std::string_view str)
     return {};
 }
 
-inline std::string to_integer_literal(
-    const std::string_view value, const std::string_view type)
+// C++ treats an integer literal with leading zeros as an octal one (`010` is 8,
+// `08` is ill-formed) while in a schema it's a decimal number
+inline std::string strip_leading_zeros(const std::string_view value)
 {
-    assert(!value.empty() && (type != "float") && (type != "double"));
+    const std::size_t sign_size =
+        (!value.empty() && ((value[0] == '-') || (value[0] == '+'))) ? 1 : 0;
+    const auto digits = value.substr(sign_size);
+    const auto first_non_zero = digits.find_first_not_of('0');
+    if(first_non_zero == std::string_view::npos)
+    {
+        return digits.empty() ? std::string{value} : std::string{"0"};
+    }
+
+    return std::string{value.substr(0, sign_size)}
+           + std::string{digits.substr(first_non_zero)};
+}
+
+inline std::string to_integer_literal(
+    const std::string_view original_value, const std::string_view type)
+{
+    assert(
+        !original_value.empty() && (type != "float") && (type != "double"));
+    const auto normalized_value = strip_leading_zeros(original_value);
+    const std::string_view value{normalized_value};
 
     if((type == "int64") && (value[0] == '-'))
     {
@@ -421,6 +441,12 @@ inline std::string numeric_literal_to_value(
         // explicit cast is required because the value is used in braced
         // initialization where, for example, integer literal which is not
         // exactly representable by floating-point type is a narrowing error
+        if(value.find_first_not_of("+-0123456789") == std::string_view::npos)
+        {
+            // written as an integer, see `strip_leading_zeros`
+            return fmt::format(
+                "static_cast<{}>({})", type, strip_leading_zeros(value));
+        }
         return fmt::format("static_cast<{}>({})", type, value);
     }
 
